@@ -5,6 +5,7 @@ import chan_l
 import chan_v
 import chan_x
 import chan_p
+import chan_t
 
 L_PROPS = {"C01", "C02", "C03", "C12", "C13", "C18", "C19", "C20"}
 
@@ -70,6 +71,8 @@ def decide(prop, tier, seed, replay=None):
             return decide_X(prop, tier, seed, t0, replay)
         if prop in P_PROPS:
             return decide_P(prop, tier, seed, t0, replay)
+        if prop in T_PROPS:
+            return decide_T(prop, tier, seed, t0, replay)
     print(f"unknown property {prop}")
     return 2
 
@@ -93,6 +96,63 @@ def determinism_L(seed):
         res["detail"] = f"{a[k][:200]} vs {b[k][:200]}"
         res["requests"] = req[start:end]
     return res
+
+
+T_PROPS = {"C17"}
+
+
+def t_side(prop, seed, tier):
+    """channel T results for `prop`: (oracle hits, disagreements, info, analysis)"""
+    ok, out = cargo_build(["chan_t"])
+    if not ok:
+        return [{"message": "harness does not build against /repo: " + out[-1500:]}], [], {"errors": ["build"]}, {"spellings": 0, "nontrivial": 0, "samples": [], "stats": {}, "n_disagree": 0}
+    lake_build(["trucdrv"])
+    info = chan_t.run(seed, tier)
+    an = chan_t.analyse(info)
+    return [o for o in an["oracle"] if o["property"] == prop], an["disagreements"], info, an
+
+
+def decide_T(prop, tier, seed, t0, replay):
+    pr = proof_side(prop, tier)
+    oracle, disagree, info, an = t_side(prop, seed, tier)
+    proof_ok = not pr["problems"]
+    tie_ok = an["n_disagree"] == 0 and not info["errors"]
+    rc = 0; violations = 0; lines = []
+    if oracle:
+        o = oracle[0]
+        path = write_replay(prop, "oracle", f"# kind: implementation-vs-oracle\n# {o['message']}\n# {len(oracle)} hits (VERIF_SEED={seed})\n")
+        lines.append(f"VIOLATION property={prop} replay={path}")
+        violations = len(oracle); rc = 1
+    elif not proof_ok or not tie_ok:
+        what = []
+        if not proof_ok:
+            what.append("proof obligations that no longer check: " + " | ".join(pr["problems"])[:2000])
+        body = "# kind: model-vs-implementation / proof break, no failing input found\n"
+        if not tie_ok:
+            what.append(f"channel T: {an['n_disagree']} spellings disagree; errors {info['errors'][:2]}")
+            if disagree:
+                d = disagree[0]
+                what.append(f"`{d['request']}`\n#   impl : {d['impl']}\n#   model: {d['model']}")
+        body += "# " + "\n# ".join(what) + "\n" + (disagree[0]["request"] + "\n" if disagree else "")
+        path = write_replay(prop, "tie", body)
+        lines.append(f"VIOLATION property={prop} replay={path} no-failing-input-found")
+        violations = 1; rc = 1
+    cov = {
+        "obligations": pr["obligations"], "discharged": pr["discharged"],
+        "checker_cmd": f"cd lean/TrucModel && lake build TrucModel.Props.{prop} && lake env lean <#print axioms of each theorem>",
+        "trusted_base": TRUSTED + ["syn's parser and quote's printer are modelled by a hand-written lexer/parser/printer (tied by channel T)", "rustc name resolution (prelude in scope, not shadowed): validated by fn(T) -> <name> compile probes"],
+        "theorems": pr["theorems"], "axioms": pr["axioms"], "proof_problems": pr["problems"],
+        "evaluations": an["spellings"], "distinct_nontrivial": an["nontrivial"],
+        "rule": "spellings = for each of the catalogue's concrete types (grammar over primitives, String, Box, Vec, Option, Result, tuples, arrays, slices behind Box, user types; depth <= 3): the compiler's full spelling, the source spelling and four whitespace variations, plus a malformed stream; real normaliser vs Lean lexer+parser+rewrite+printer; non-trivial = contains a constructor",
+        "samples": an["samples"], "traces_validated_against_impl": an["spellings"], "catalogue": an["stats"], "disagreements": an["n_disagree"],
+        "oracle_hits": len(oracle), "rustc_type_equality_probe": "ok" if info.get("probe_rc") == 0 else "failed", "exhaustive": False,
+    }
+    write_evidence(prop, tier, seed, cov, ["prelude names are in scope and not shadowed where generated code is compiled"], time.time() - t0, violations)
+    for l in lines:
+        print(l)
+    if rc == 0:
+        print(f"OK property={prop} theorems={pr['discharged']}/{pr['obligations']} spellings={an['spellings']} disagreements=0")
+    return rc
 
 
 P_PROPS = {"C11", "C14"}
@@ -379,6 +439,13 @@ def decide_L(prop, tier, seed, t0, replay):
         info = chan_l.run(seed, tier)
     an = chan_l.analyse(info["dirs"], prop)
     oracle = [o for o in an["oracle"] if o["property"] == prop]
+    if prop == "C18" and not replay:
+        t_or, t_dis, t_info, t_an = t_side("C18", seed, tier)
+        for o in t_or:
+            oracle.append({"property": "C18", "message": o["message"], "requests": ["# channel T (type tables)"]})
+        if t_an["n_disagree"] or t_info["errors"]:
+            an["n_disagree"] = an.get("n_disagree", 0) + max(1, t_an["n_disagree"])
+            an["disagreements"].append({"dir": "", "history": 0, "line": 0, "request": (t_dis[0]["request"] if t_dis else "channel T"), "impl": (t_dis[0]["impl"] if t_dis else str(t_info["errors"])), "model": (t_dis[0]["model"] if t_dis else ""), "requests": []})
     det = None
     if prop == "C19" and not replay:
         det = determinism_L(seed)
